@@ -206,7 +206,8 @@ def mstep_task(kind, kw, burn_in, n_ind=2, n_vis=2):
                 tol = TOL_NOISE if pname == "noise_std" else 1e-5
                 # the refusal is legitimate iff the documented variance is below the tolerance on this path
                 goal = z3.Or(*[e < T.real_val(tol) for e in earr.reshape(-1)])
-                rec.prove(f"refusal[{pname}]", goal, replay=make_rp(pname, mode, earr), key=f"C04:{pname}:{'scalar' if earr.size == 1 else 'diag'}:refusal",
+                big = pname == "noise_std" and earr.size == 1 and ins["mask"].sym.size > 8  # 2^12 mask cases in one nonlinear query: best effort
+                rec.prove(f"refusal[{pname}]", goal, replay=make_rp(pname, mode, earr), required=not big, timeout_ms=120000 if big else 30000, key=f"C04:{pname}:{'scalar' if earr.size == 1 else 'diag'}:refusal",
                           what=f"convergence error raised although the documented variance of {pname} is >= tol")
                 rec.end_path(c)
                 continue
@@ -223,7 +224,8 @@ def mstep_task(kind, kw, burn_in, n_ind=2, n_vis=2):
                     else:
                         goal = z3.And(got[idx] >= 0, got[idx] * got[idx] == earr[idx])
                     key = f"C04:{pname}:{'scalar' if (pname == 'noise_std' and earr.size == 1) else 'rule'}"
-                    rec.prove(f"{pname}{list(idx)}", goal, replay=make_rp(pname, mode, earr), key=key, what=f"{pname} is not the documented closed-form update")
+                    big = pname == "noise_std" and earr.size == 1 and ins["mask"].sym.size > 8
+                    rec.prove(f"{pname}{list(idx)}", goal, replay=make_rp(pname, mode, earr), key=key, required=not big, timeout_ms=120000 if big else 30000, what=f"{pname} is not the documented closed-form update")
             rec.twin("path")
             rec.end_path(c)
         rec.sample({"model": cfg_name(kind, kw), "burn_in": burn_in, "parameters": list(by_type(m.dag, ModelParameter)), "statistics": "fresh symbols with the real shapes/weights"})
